@@ -16,6 +16,7 @@ Stateless search over straight-line programs (FmtStr cannot be deep-copied, so e
 import itertools
 
 from mc import cells as C
+from mc import repeat
 from mc.runner import Acc, Report
 
 LEVEL = "model_checking"
@@ -325,6 +326,7 @@ def twins(acc):
 
 def run(ctx):
     rep = Report()
+    repeat.run_into(ctx, rep, "C13")
     acc = Acc(seed=ctx.seed)
     twins(acc)
     rep.merge(acc, "bool_int_twin_values_in_fresh_processes")
